@@ -112,3 +112,74 @@ func vfH_C08_append() {
 	}
 	vfReach("end")
 }
+
+// C08_valcut: records that carry values (flag AOF_FLAG_CONTAINS_DATA, value frames in
+// append.aof.N.dat).  The record file is complete, the value file is cut at every byte:
+// recovery must succeed and yield exactly the records before the first one whose value
+// frame is not completely inside the cut, each with its value intact.
+func vfH_C08_valcut() {
+	env := vfNewEnv(0)
+	aof := env.slock.aof
+	aof.dataDir = vfFSDir()
+	k := vfRange("records", 1, 3)
+	full := vfAofHeader()
+	var recs, vals [][]byte
+	var dat []byte
+	var ends []int // offset in the value file after record i's frame (unchanged if it has none)
+	for i := 0; i < k; i++ {
+		r := vfAofRecord(vfName("rec", i))
+		var frame []byte
+		if vfBool(vfName("hasval", i)) {
+			r[56] |= 0x20 // AOF_FLAG_CONTAINS_DATA (0x2000, high byte of the flag word)
+			n := vfRange(vfName("vlen", i), 0, 3)
+			frame = append([]byte{byte(n), 0, 0, 0}, vfBytes(vfName("val", i), n)...)
+			dat = append(dat, frame...)
+		}
+		recs = append(recs, r)
+		vals = append(vals, frame)
+		ends = append(ends, len(dat))
+		full = append(full, r...)
+	}
+	cut := vfRange("cut", 0, len(dat))
+	vfFSWrite(aof.dataDir+"/append.aof.1", full)
+	vfFSWrite(aof.dataDir+"/append.aof.1.dat", dat[:cut])
+	var got, gotVals [][]byte
+	err, _ := aof.LoadAofFiles([]string{"append.aof.1"}, 0, func(filename string, aofFile *AofFile, lock *AofLock, firstLock bool) (bool, error) {
+		got = append(got, append([]byte(nil), lock.buf...))
+		if lock.data != nil {
+			gotVals = append(gotVals, append([]byte(nil), lock.data...))
+		} else {
+			gotVals = append(gotVals, nil)
+		}
+		return true, nil
+	})
+	vfAssert(err == nil, "C08: loading a log whose value file is cut at an arbitrary byte fails (the next start does not succeed)")
+	whole := 0
+	for i := 0; i < k; i++ {
+		if vals[i] != nil && ends[i] > cut {
+			break
+		}
+		whole++
+	}
+	vfAssert(len(got) == whole, "C08: the records recovered are not exactly those whose values are completely before the cut")
+	for i := range got {
+		if i >= k {
+			break
+		}
+		for j := 0; j < 64; j++ {
+			vfAssert(got[i][j] == recs[i][j], "C08: a recovered record differs from the record that was written")
+		}
+		vfAssert((gotVals[i] == nil) == (vals[i] == nil), "C08: a record was recovered with / without a value it did not / did have")
+		if vals[i] != nil && gotVals[i] != nil {
+			vfAssert(len(gotVals[i]) == len(vals[i]), "C08: a recovered value has a different length")
+			for j := range vals[i] {
+				if j < len(gotVals[i]) {
+					vfAssert(gotVals[i][j] == vals[i][j], "C08: a recovered value differs from the value that was written")
+				}
+			}
+		}
+	}
+	vfReach("end")
+}
+
+func init() { vfHarnesses["C08_valcut"] = vfH_C08_valcut }
